@@ -1,7 +1,7 @@
 #!/bin/bash
 # allquick.sh <tier> <seed>... : run every claimed check at the given seeds; print one line per run
 tier=$1; shift
-cd /verif
+cd "$(dirname "$0")/.."
 ids=$(python3 -c "import json;print(' '.join(c['property_id'] for c in json.load(open('MANIFEST.json'))['checks']))")
 for s in "$@"; do for p in $ids; do
   out=$(VERIF_SEED=$s ./check $p $tier 2>&1); rc=$?
